@@ -310,7 +310,8 @@ impl BoxHeader {
         if self.size > u32::MAX as u64 {
             writer.write_u32::<BigEndian>(1)?;
             writer.write_u32::<BigEndian>(self.name.into())?;
-            writer.write_u64::<BigEndian>(self.size)?;
+            // `size` counts an 8-byte header (see `BoxHeader::read`), the 64-bit form has 16
+            writer.write_u64::<BigEndian>(self.size + 8)?;
             Ok(16)
         } else {
             writer.write_u32::<BigEndian>(self.size as u32)?;
